@@ -83,8 +83,23 @@ def opOfJ (j : J) : Option Op := do
       | .arr [k, v] => do pure ((← keyOfJ k), (← treeOfJ v))
       | _ => none)
     pure (.update kvs)
+  | "insert" => do pure (.insert (← j.getInt? "i") (← v))
+  | "delidx" => do pure (.delIdx (← j.getInt? "i"))
+  | "remove" => do
+    let a ← match j.get? "atom" with
+      | some .null => some Atom.none
+      | some (.int i) => some (Atom.int i)
+      | some (.str s) => some (Atom.str s)
+      | _ => none
+    pure (.remove a)
+  | "setslice" => do
+    let vs ← (j.getArr? "vs")
+    pure (.setSlice (j.getInt? "a") (j.getInt? "b") (j.getInt? "step") (← vs.mapM treeOfJ))
+  | "delslice" => pure (.delSlice (j.getInt? "a") (j.getInt? "b") (j.getInt? "step"))
+  | "imul" => do pure (.imul (← j.getInt? "k"))
   | "clear" => pure .clear
   | "reverse" => pure .reverse
+  | "sort" => pure .sort
   | "popitem" => pure .popitem
   | _ => none
 
